@@ -47,6 +47,7 @@ import (
 
 type v6Key struct {
 	priv *ecdsa.PrivateKey
+	jwkD string // the same key as a PRIVATE JWK (with the d member)
 	jwk  string // public JWK JSON
 	hex  string // uncompressed point, for the ops file
 }
@@ -62,7 +63,9 @@ func v6NewKey() *v6Key {
 func v6KeyOf(p *ecdsa.PrivateKey) *v6Key {
 	x, y := p.X.FillBytes(make([]byte, 32)), p.Y.FillBytes(make([]byte, 32))
 	j := fmt.Sprintf(`{"crv":"P-256","kty":"EC","x":"%s","y":"%s"}`, base64.RawURLEncoding.EncodeToString(x), base64.RawURLEncoding.EncodeToString(y))
-	return &v6Key{priv: p, jwk: j, hex: hex.EncodeToString(p.D.FillBytes(make([]byte, 32)))}
+	jd := fmt.Sprintf(`{"crv":"P-256","d":"%s","kty":"EC","x":"%s","y":"%s"}`, base64.RawURLEncoding.EncodeToString(p.D.FillBytes(make([]byte, 32))),
+		base64.RawURLEncoding.EncodeToString(x), base64.RawURLEncoding.EncodeToString(y))
+	return &v6Key{priv: p, jwk: j, jwkD: jd, hex: hex.EncodeToString(p.D.FillBytes(make([]byte, 32)))}
 }
 
 func v6KeyFromHex(h string) *v6Key {
@@ -73,6 +76,10 @@ func v6KeyFromHex(h string) *v6Key {
 	p.X, p.Y = p.Curve.ScalarBaseMult(d)
 	return v6KeyOf(p)
 }
+
+// RSA JWKs (private and public) for the embedded-key mutants; RFC 7517 appendix A.2 key, truncated use is fine: jwx only parses them
+var v6RsaPubJWK = `{"kty":"RSA","n":"0vx7agoebGcQSuuPiLJXZptN9nndrQmbXEps2aiAFbWhM78LhWx4cbbfAAtVT86zwu1RK7aPFFxuhDR1L6tSoc_BJECPebWKRXjBZCiFV4n3oknjhMstn64tZ_2W-5JsGY4Hc5n9yBXArwl93lqt7_RN5w6Cf0h4QyQ5v-65YGjQR0_FDW2QvzqY368QQMicAtaSqzs8KJZgnYb9c7d0zgdAZHzu6qMQvRL5hajrn1n91CbOpbISD08qNLyrdkt-bFTWhAI4vMQFh6WeZu0fM4lFd2NcRwr3XPksINHaQ-G_xBniIqbw0Ls1jF44-csFCur-kEgU8awapJzKnqDKgw","e":"AQAB"}`
+var v6RsaPrivJWK = `{"kty":"RSA","n":"0vx7agoebGcQSuuPiLJXZptN9nndrQmbXEps2aiAFbWhM78LhWx4cbbfAAtVT86zwu1RK7aPFFxuhDR1L6tSoc_BJECPebWKRXjBZCiFV4n3oknjhMstn64tZ_2W-5JsGY4Hc5n9yBXArwl93lqt7_RN5w6Cf0h4QyQ5v-65YGjQR0_FDW2QvzqY368QQMicAtaSqzs8KJZgnYb9c7d0zgdAZHzu6qMQvRL5hajrn1n91CbOpbISD08qNLyrdkt-bFTWhAI4vMQFh6WeZu0fM4lFd2NcRwr3XPksINHaQ-G_xBniIqbw0Ls1jF44-csFCur-kEgU8awapJzKnqDKgw","e":"AQAB","d":"X4cTteJY_gn4FYPsXB8rdXix5vwsg1FLN5E3EaG6RJoVH-HLLKD9M7dx5oo7GURknchnrRweUkC7hT5fJLM0WbFAKNLWY2vv7B6NqXSzUvxT0_YSfqijwp3RTzlBaCxWp4doFk5N2o8Gy_nHNKroADIkJ46pRUohsXywbReAdYaMwFs9tv8d_cPVY3i07a3t8MN6TNwm0dSawm9v47UiCl3Sk5ZiG7xojPLu4sbg1U2jx4IBTNBznbJSzFHK66jT8bgkuqsk0GjskDJk19Z4qwjwbsnn4j2WBii3RL-Us2lGVkY8fkFzme1z0HbIkfz0Y6mqnOYtqc0X4jfcKoAC8Q","p":"83i-7IvMGXoMXCskv73TKr8637FiO7Z27zv8oj6pbWUQyLPQBQxtPVnwD20R-60eTDmD2ujnMt5PoqMrm8RfmNhVWDtjjMmCMjOpSXicFHj7XOuVIYQyqVWlWEh6dN36GVZYk93N8Bc9vY41xy8B9RzzOGVQzXvNEvn7O0nVbfs","q":"3dfOR9cuYq-0S-mkFLzgItgMEfFzB2q3hWehMuG0oCuqnb3vobLyumqjVZQO1dIrdwgTnCdpYzBcOfW5r370AFXjiWft_NGEiovonizhKpo9VVS78TzFgxkIdrecRezsZ-1kYd_s1qDbxtkDEgfAITAG9LUnADun4vIcb6yelxk","dp":"G4sPXkc6Ya9y8oJW9_ILj4xuppu0lzi_H7VTkS8xj5SdX3coE0oimYwxIi2emTAue0UOa5dpgFGyBJ4c8tQ2VF402XRugKDTP8akYhFo5tAA77Qe_NmtuYZc3C3m3I24G2GvR5sSDxUyAN2zq8Lfn9EUms6rY3Ob8YeiKkTiBj0","dq":"s9lAH9fggBsoFR8Oac2R_E2gw282rT2kGOAhvIllETE1efrA6huUUvMfBcMpn8lqeW6vzznYY5SSQF7pMdC_agI3nG8Ibp1BUb0JUiraRNqUfLhcQb_d9GF4Dh7e74WbRsobRonujTYN1xCaP6TO61jvWrX-L18txXw494Q_cgk","qi":"GyM_p6JrXySiz1toFgKbWV-JdI3jQ4ypu9rbMWx3rQJBfmt0FoYzgUIZEVFEcOqwemRN81zoDAaa-Bk0KWNGDjJHZDdDmFhW3AN7lI-puxk_mHZGJ11rxyR8O55XLSe3SPmRfKwZI6yU24ZxvQKFYItdldUKGzO6Ia6zTKhAVRU"}`
 
 type v6Pair struct{ k, v string } // header member: name, raw JSON value
 
@@ -281,6 +288,7 @@ func v6Describe(input []byte) map[string]any {
 	}
 	members := []any{}
 	jwkOK := true
+	jwkPrivate := false
 	b64ok := []string{}
 	for _, p := range ms {
 		j, ok := v6J(json.RawMessage(p.v))
@@ -292,6 +300,17 @@ func v6Describe(input []byte) map[string]any {
 		if p.k == "jwk" {
 			if _, err := jwk.ParseKey([]byte(p.v)); err != nil {
 				jwkOK = false
+			}
+			// private / symmetric key material, read off the JSON itself (RFC 7518: d = private part, kty oct = symmetric)
+			var km map[string]json.RawMessage
+			jwkPrivate = false
+			if json.Unmarshal([]byte(p.v), &km) == nil {
+				if _, has := km["d"]; has {
+					jwkPrivate = true
+				}
+				if string(km["kty"]) == `"oct"` {
+					jwkPrivate = true
+				}
 			}
 		}
 		if p.k == "pal" {
@@ -309,6 +328,7 @@ func v6Describe(input []byte) map[string]any {
 	}
 	d["members"] = members
 	d["jwkOK"] = jwkOK
+	d["jwkPrivate"] = jwkPrivate
 	d["b64ok"] = b64ok
 	return d
 }
@@ -332,6 +352,8 @@ func v6ParseClass(err error) string {
 		return "err:payload"
 	case strings.Contains(s, "payload type must be formatted"):
 		return "err:cty"
+	case strings.Contains(s, "must not hold a private"):
+		return "err:jwk-private"
 	case strings.Contains(s, "either `kid` or `jwk`"):
 		return "err:kid-jwk"
 	case strings.Contains(s, "unsupported version"):
@@ -989,7 +1011,13 @@ func (g *v6Gen) parserMutants(budget int) {
 	addH("jwk+kid-empty", v6Replace(v6Replace(base, "jwk", key.jwk), "kid", `""`), ph)
 	addH("jwk+kid-null", v6Replace(v6Replace(base, "jwk", key.jwk), "kid", `null`), ph)
 	addH("kid-empty-only", v6Replace(v6Remove(base, "jwk"), "kid", `""`), ph)
-	addH("jwk-private", v6Replace(v6Remove(base, "kid"), "jwk", `{"kty":"oct","k":"AAAA"}`), ph)
+	addH("jwk-symmetric", v6Replace(v6Remove(base, "kid"), "jwk", `{"kty":"oct","k":"AAAA"}`), ph)
+	addH("jwk-private-ec", v6Replace(v6Remove(base, "kid"), "jwk", key.jwkD), ph)
+	addH("jwk-private-ec+kid", v6Replace(v6Replace(base, "kid", `"did:nuts:x#k"`), "jwk", key.jwkD), ph)
+	addH("jwk-private-rsa", v6Replace(v6Remove(base, "kid"), "jwk", v6RsaPrivJWK), ph)
+	addH("jwk-public-rsa", v6Replace(v6Remove(base, "kid"), "jwk", v6RsaPubJWK), ph)
+	addH("jwk-private-okp", v6Replace(v6Remove(base, "kid"), "jwk", `{"kty":"OKP","crv":"Ed25519","x":"11qYAYKxCrfVS_7TyWQHOg7hcvPapiMlrwIaaPcHURo","d":"nWGxne_9WmC6hEr0kuwsxERJxWl7MmkZcDusAxyuf2A"}`), ph)
+	addH("jwk-public-okp", v6Replace(v6Remove(base, "kid"), "jwk", `{"kty":"OKP","crv":"Ed25519","x":"11qYAYKxCrfVS_7TyWQHOg7hcvPapiMlrwIaaPcHURo"}`), ph)
 	addH("jwk-bad", v6Replace(v6Remove(base, "kid"), "jwk", `{"kty":"EC","crv":"P-256","x":"AA"}`), ph)
 	for _, c := range []string{`"foo"`, `""`, `"/"`, `"a/b/c"`, `"a/"`, `"application\/x"`, `" / "`} {
 		addH("cty="+c, v6Replace(base, "cty", c), ph)
@@ -1088,6 +1116,7 @@ type v6Spec struct {
 	tamper   bool
 	alg      string
 	twoSigs  bool
+	embedPriv bool // embed the signer's PRIVATE key as jwk
 }
 
 func v6Sha(b []byte) string { h := sha256.Sum256(b); return v6Hex(h[:]) }
@@ -1103,6 +1132,9 @@ func (g *v6Gen) build(sp v6Spec) ([]byte, v6Call) {
 	}
 	if sp.alg != "" {
 		ps = v6Replace(ps, "alg", v6Str(sp.alg))
+	}
+	if sp.embedPriv && sp.embed >= 0 {
+		ps = v6Replace(ps, "jwk", g.keys[sp.embed].jwkD)
 	}
 	hdr := v6HdrJSON(ps)
 	si, sig := v6Sign(g.keys[sp.signer], hdr, sp.ph)
@@ -1301,7 +1333,13 @@ func (g *v6Gen) history(steps int, schedules bool) {
 			}
 			lc, _ := strconv.Atoi(sp.lc)
 			for j := 0; j < nd; j++ {
-				switch d := g.rnd.Intn(22); d {
+				switch d := g.rnd.Intn(23); d {
+				case 22:
+					if sp.embed < 0 {
+						sp.embed = sp.signer
+					}
+					sp.embedPriv = true
+					note += ":embedded-private-jwk"
 				case 0:
 					sp.prevs = append(append([]string{}, sp.prevs...), g.randRef())
 					note += ":missing-prev"
